@@ -25,6 +25,8 @@ type Stream struct {
 	sink         io.Writer
 	buf          bufReader
 	lastRuneSize int
+	lastRead     lastRead // outcome of the most recent ReadByte/ReadRune; what UnreadByte/UnreadRune takes back
+	eofUnread    bool     // io.EOF was read and unread again; the next read delivers it without touching the source
 
 	mode        ioMode
 	alias       Atom
@@ -119,6 +121,7 @@ func (s *Stream) Name() string {
 // ReadByte reads a byte from the underlying source.
 // It throws an error if the stream is not an input binary stream.
 func (s *Stream) ReadByte() (byte, error) {
+	s.lastRead = lastReadNone
 	if err := s.initRead(); err != nil {
 		return 0, err
 	}
@@ -127,34 +130,49 @@ func (s *Stream) ReadByte() (byte, error) {
 		return 0, errWrongStreamType
 	}
 
+	if s.eofUnread {
+		return 0, s.readEOF()
+	}
+
 	b, err := s.buf.ReadByte()
 	if err == nil {
 		s.position += 1
 	}
+	s.setLastRead(err)
 	s.checkEOS(err)
 	return b, err
 }
 
+// UnreadByte takes back what the most recent ReadByte delivered: a byte, or the end of the stream.
 func (s *Stream) UnreadByte() error {
-	if err := s.initRead(); err != nil {
-		return err
+	if s.mode != ioModeRead {
+		return errWrongIOMode
 	}
 
 	if s.streamType != streamTypeBinary {
 		return errWrongStreamType
 	}
 
-	err := s.buf.UnreadByte()
-	if err == nil {
-		s.position -= 1
-		s.endOfStream = endOfStreamNot
+	switch s.takeLastRead() {
+	case lastReadOK:
+		err := s.buf.UnreadByte()
+		if err == nil {
+			s.position -= 1
+			s.endOfStream = endOfStreamNot
+		}
+		return err
+	case lastReadEOF:
+		s.unreadEOF()
+		return nil
+	default:
+		return bufio.ErrInvalidUnreadByte
 	}
-	return err
 }
 
 // ReadRune reads the next rune from the underlying source.
 // It throws an error if the stream is not an input text stream.
 func (s *Stream) ReadRune() (r rune, size int, err error) {
+	s.lastRead = lastReadNone
 	if err := s.initRead(); err != nil {
 		return 0, 0, err
 	}
@@ -163,29 +181,86 @@ func (s *Stream) ReadRune() (r rune, size int, err error) {
 		return 0, 0, errWrongStreamType
 	}
 
+	if s.eofUnread {
+		s.lastRuneSize = 0
+		return 0, 0, s.readEOF()
+	}
+
 	r, n, err := s.buf.ReadRune()
 	s.position += int64(n)
 	s.lastRuneSize = n
+	s.setLastRead(err)
 	s.checkEOS(err)
 	return r, n, err
 }
 
+// UnreadRune takes back what the most recent ReadRune delivered: a rune, or the end of the stream.
 func (s *Stream) UnreadRune() error {
-	if err := s.initRead(); err != nil {
-		return err
+	if s.mode != ioModeRead {
+		return errWrongIOMode
 	}
 
 	if s.streamType != streamTypeText {
 		return errWrongStreamType
 	}
 
-	err := s.buf.UnreadRune()
-	if err == nil {
-		s.position -= int64(s.lastRuneSize)
-		s.endOfStream = endOfStreamNot
-		s.lastRuneSize = 0
+	switch s.takeLastRead() {
+	case lastReadOK:
+		err := s.buf.UnreadRune()
+		if err == nil {
+			s.position -= int64(s.lastRuneSize)
+			s.endOfStream = endOfStreamNot
+			s.lastRuneSize = 0
+		}
+		return err
+	case lastReadEOF:
+		s.unreadEOF()
+		return nil
+	default:
+		return bufio.ErrInvalidUnreadRune
 	}
-	return err
+}
+
+// lastRead is the outcome of the most recent read as far as unreading is concerned.
+type lastRead uint8
+
+const (
+	lastReadNone lastRead = iota // nothing to take back (no read yet, an error, a repeated io.EOF, or already unread)
+	lastReadOK                   // a byte or a rune
+	lastReadEOF                  // io.EOF
+)
+
+func (s *Stream) setLastRead(err error) {
+	switch {
+	case err == nil:
+		s.lastRead = lastReadOK
+	case errors.Is(err, io.EOF) && s.endOfStream != endOfStreamPast:
+		s.lastRead = lastReadEOF
+	default:
+		// Including an end of file that is delivered again with eof_action(eof_code): the stream stays past.
+		s.lastRead = lastReadNone
+	}
+}
+
+func (s *Stream) takeLastRead() lastRead {
+	l := s.lastRead
+	s.lastRead = lastReadNone
+	return l
+}
+
+// readEOF delivers an end of file that was unread before.
+func (s *Stream) readEOF() error {
+	s.eofUnread = false
+	s.endOfStream = endOfStreamPast
+	s.lastRead = lastReadEOF
+	return io.EOF
+}
+
+// unreadEOF takes the end of file back: it has been seen but not consumed,
+// so the stream is at, not past, its end and the next read delivers io.EOF (again).
+func (s *Stream) unreadEOF() {
+	s.eofUnread = true
+	s.endOfStream = endOfStreamAt
 }
 
 // Seek sets the offset to the underlying source/sink.
@@ -309,6 +384,8 @@ func (s *Stream) reset() {
 
 	s.buf = newBufReader(s.source)
 	s.endOfStream = endOfStreamNot
+	s.lastRead = lastReadNone
+	s.eofUnread = false
 }
 
 func (s *Stream) checkEOS(err error) {
